@@ -351,7 +351,8 @@ def Ctx.opLeaveC (c : Ctx) (a : Actor) (tn : TName) (viaChn : Bool) (unsub : Boo
         let t := if !a.bg then t.setPud suid pud else t
         let (c, t) :=
           if pud.online = (0 : Int) then
-            if asChan then (c, t.delPud suid)
+            -- the reader's record goes unless another (background) session of the reader is still attached
+            if asChan then (c, if t.sessions.any (·.2 = suid) then t else t.delPud suid)
             else (c.presOnline t { what := "off", src := suid, filterIn := modeRead }, t)
           else (c, t)
         (c.emit a.sid (ctrl 200 tn)).putLive t
@@ -525,6 +526,13 @@ def Ctx.opSetSubC (c : Ctx) (a : Actor) (tn : TName) (viaChn : Bool) (target : U
   | some t =>
     if viaChn ∧ !t.isChan then c.emit a.sid (ctrl 404 tn) else
     let tg := if target = "" then a.uid else target
+    -- the mode given to a cached channel reader cannot be changed by anybody (after the checks on the approver and the mode)
+    let tgReader : Bool := decide (tg ≠ a.uid) && (match t.pud? tg with | some p => p.isChan | none => false)
+    if tgReader && !viaChn then
+      let hostOk : Bool := match t.pud? a.uid with | some h => isSharer (eff h) | none => false
+      let parseErr : Bool := match (if mode = "" then Except.ok modeUnset else unmarshal modeUnset mode.toList) with | .error _ => true | .ok _ => false
+      if hostOk && !t.readOnly && parseErr then c.emit a.sid (ctrl 400 tn) else c.emit a.sid (ctrl 403 tn)
+    else
     match t.pud? a.uid with
     | some p =>
       if p.isChan ∧ tg = a.uid then
@@ -670,7 +678,7 @@ def Ctx.dropTopicC (c : Ctx) (s : Sess) (tn : TName) : Ctx :=
       let t := if !s.bg then t.setPud suid pud else t
       if pud.online = (0 : Int) then
         -- the last session of a reader: the record is dropped; of a subscriber: the others are told
-        if wasChan then c.putLive (t.delPud suid)
+        if wasChan then c.putLive (if t.sessions.any (·.2 = suid) then t else t.delPud suid)
         else (c.presOnline t { what := "off", src := suid, filterIn := modeRead }).putLive t
       else c.putLive t
 
